@@ -13,9 +13,15 @@
 #include <gnu_gama/adj/adj.h>
 #include <gnu_gama/adj/adj_input_data.h>
 #include <matvec/matvec.h>
+#include <gnu_gama/local/network.h>
+#include <gnu_gama/xml/gkfparser.h>
+#include <gnu_gama/local/acord/acord2.h>
+#include <gnu_gama/local/test_linearization_visitor.h>
+#include <fstream>
 #include <sys/mman.h>
 #include <sys/wait.h>
 #include <unistd.h>
+#include <fcntl.h>
 #include <deque>
 #include <unordered_map>
 #include <unordered_set>
@@ -38,6 +44,7 @@ struct Problem {
   std::vector<std::vector<int>> subsets;   // resolving subsets S1, S2 (+ optional non-resolving)
   std::string name;
   int nullity = 0;
+  std::string gkf;        // LocalNetwork problems: input text
 };
 
 static AdjInputData* make_input(const Problem& p, const std::vector<int>* S) {
@@ -76,8 +83,10 @@ static bool same(const Answer& a, const Answer& b) {
   return true;
 }
 
-struct Op { std::string name; int kind; int a = 0, b = 0; bool config = false; };
-enum { K_UNK, K_RES, K_SSQ, K_DEF, K_QXX, K_QBB, K_Q0XX, K_LINDEP, K_MINX_ALL, K_MINX_S, K_RESET, K_SETALG, K_QBX, K_ADJ_X, K_ADJ_R, K_ADJ_RTR };
+struct Op { std::string name; int kind; int a = 0, b = 0; bool config = false; int cslot = -1, cval = 0; };
+enum { K_UNK, K_RES, K_SSQ, K_DEF, K_QXX, K_QBB, K_Q0XX, K_LINDEP, K_MINX_ALL, K_MINX_S, K_RESET, K_SETALG, K_QBX, K_ADJ_X, K_ADJ_R, K_ADJ_RTR,
+       N_SOLVE, N_RES, N_VWV, N_DOF, N_NULL, N_M0, N_NUNK, N_NOBS, N_QXX, N_QBB, N_STDOBS, N_WCOEF, N_STDRES, N_STUD, N_OBSCTL, N_UNKSTD, N_ELL, N_LINDEP, N_COND, N_CONF, N_HUGE, N_CONN, N_M0POST,
+       N_SETALG, N_UPD, N_M0TYPE, N_CONFPR };
 
 static uint64_t hvec(const double* p, int n, uint64_t h) { for (int i = 0; i < n; i++) h = hround(p[i], h); return h; }
 template <class V> static uint64_t hv(const V& v, uint64_t h = 1469598103934665603ULL) { int n = v.dim(); h = fnv(&n, sizeof n, h); return n ? hvec(v.begin(), n, h) : h; }
@@ -145,7 +154,9 @@ struct Target {
   virtual Answer apply(const Op& op) = 0;
   virtual std::string key() = 0;
   virtual bool would_crash(const Op&) { return false; }
+  virtual bool risky(const Op&) { return false; }      // execute in a nested fork (may crash in this state)
   std::string cfg() const { return std::to_string(cfg_minx) + "/" + std::to_string(cfg_alg); }
+  virtual std::vector<int> cfgv() const = 0;
 };
 
 template <class F> static Answer guarded(F f) {
@@ -173,6 +184,7 @@ struct SolverTarget : Target {
   }
   ~SolverTarget() { obj.reset(); delete data; }
   std::string key() override { return cfg() + " " + key_base(obj.get()); }
+  std::vector<int> cfgv() const override { return {cfg_minx}; }
   Answer apply(const Op& op) override {
     TBase* o = obj.get();
     return guarded([&](Answer& a) {
@@ -204,6 +216,7 @@ struct AdjTarget : Target {
     cfg_minx = subset;
     cfg_alg = 0;
   }
+  std::vector<int> cfgv() const override { return {cfg_alg}; }
   std::string key() override {
     std::ostringstream o; o << cfg() << " A s" << adj.solved << " a" << (int)adj.algorithm_ << " ";
     if (adj.solved) o << "x" << std::hex << (hv(adj.x_) & 0xffffff) << " r" << (hv(adj.r_) & 0xffffff) << " t" << (hround(adj.rtr_, 7) & 0xffffff) << std::dec << " ";
@@ -227,12 +240,112 @@ struct AdjTarget : Target {
   }
 };
 
-static const char* KIND[5] = {"AdjEnvelope", "AdjGSO", "AdjSVD", "AdjCholDec", "Adj"};
+
+using GNU_gama::local::LocalNetwork;
+struct NetTarget : Target {
+  std::unique_ptr<LocalNetwork> net;
+  std::string pt_id;
+  int cfg_m0 = 1;      // 1 aposteriori (default) 0 apriori
+  int cfg_cp = 0;      // index into conf-pr menu
+  NetTarget(const Problem& pp) : Target(pp) {
+    net.reset(new LocalNetwork);
+    {
+      GNU_gama::local::GKFparser gkf(*net);
+      gkf.xml_parse(p.gkf.c_str(), (int)p.gkf.size(), 1);
+    }
+    net->set_algorithm("envelope");
+    net->remove_inconsistency();
+    GNU_gama::local::Acord2 acord2(net->PD, net->OD);
+    acord2.execute();
+    GNU_gama::local::refine_obsdh_reductions(net.get());
+    cfg_alg = 0; cfg_minx = 0;
+    cfg_m0 = net->m_0_aposteriori() ? 1 : 0;
+    for (auto i = net->PD.begin(); i != net->PD.end(); ++i) if (i->second.free_xy()) { pt_id = i->first.str(); break; }
+  }
+  std::string key() override {
+    LocalNetwork& n = *net;
+    std::ostringstream o;
+    o << cfg_alg << "/" << cfg_m0 << "/" << cfg_cp << " N f" << n.tst_redbod_ << n.tst_redmer_ << n.tst_rov_opr_ << n.tst_vyrovnani_ << " a" << n.algorithm_ << " t" << (int)n.typ_m_0_ << " c" << n.konf_pr_;
+    if (n.tst_rov_opr_) o << " A" << std::hex << (hm(n.A) & 0xffffff) << " b" << (hv(n.b) & 0xffffff) << std::dec;
+    if (n.tst_vyrovnani_) o << " r" << std::hex << (hv(n.r) & 0xffffff) << " s" << (hv(n.sigma_L) & 0xffffff) << " w" << (hv(n.vahkopr) & 0xffffff) << " p" << (hround(n.suma_pvv_, 7) & 0xffffff) << std::dec;
+    o << " rm" << n.removed_points.size() << " | " << key_base(n.least_squares);
+    return o.str();
+  }
+  bool risky(const Op& op) override { return !op.config && !net->tst_vyrovnani_; }
+  std::vector<int> cfgv() const override { return {cfg_alg, cfg_m0, cfg_cp}; }
+  Answer apply(const Op& op) override {
+    static const char* AN[4] = {"envelope", "gso", "svd", "cholesky"};
+    static const double CP[2] = {0.95, 0.80};
+    LocalNetwork& n = *net;
+    return guarded([&](Answer& a) {
+      switch (op.kind) {
+        case N_SOLVE: { const auto& x = n.solve(); a.v.assign(x.begin(), x.end()); break; }
+        case N_RES: { const auto& r = n.residuals(); a.v.assign(r.begin(), r.end()); break; }
+        case N_VWV: a.v.push_back(n.trans_VWV()); break;
+        case N_DOF: a.v.push_back(n.degrees_of_freedom()); break;
+        case N_NULL: a.v.push_back(n.null_space()); break;
+        case N_M0: a.v.push_back(n.m_0()); break;
+        case N_M0POST: a.v.push_back(n.m_0_aposteriori_value()); break;
+        case N_NUNK: a.v.push_back(n.unknowns_count()); break;
+        case N_NOBS: a.v.push_back(n.observations_count()); break;
+        case N_QXX: a.v.push_back(n.qxx(op.a, op.b)); break;
+        case N_QBB: a.v.push_back(n.qbb(op.a, op.b)); break;
+        case N_STDOBS: a.v.push_back(n.stdev_obs(op.a)); break;
+        case N_WCOEF: a.v.push_back(n.wcoef_res(op.a)); break;
+        case N_STDRES: a.v.push_back(n.stdev_res(op.a)); break;
+        case N_STUD: a.v.push_back(n.studentized_residual(op.a)); break;
+        case N_OBSCTL: a.v.push_back(n.obs_control(op.a)); break;
+        case N_UNKSTD: a.v.push_back(n.unknown_stdev(op.a)); break;
+        case N_ELL: if (pt_id.empty()) { a.exc = "network-has-no-xy-point"; break; } { double A = 0, B = 0, al = 0; n.std_error_ellipse(GNU_gama::local::PointID(pt_id), A, B, al); a.v = {A, B, al}; break; }
+        case N_LINDEP: a.v.push_back(n.lindep(op.a) ? 1 : 0); break;
+        case N_COND: a.v.push_back(n.cond()); break;
+        case N_CONF: a.v.push_back(n.conf_int_coef()); break;
+        case N_HUGE: a.v.push_back(n.huge_abs_terms() ? 1 : 0); break;
+        case N_CONN: a.v.push_back(n.connected_network() ? 1 : 0); break;
+        case N_SETALG: n.set_algorithm(AN[op.a]); cfg_alg = op.a; a.isvoid = true; break;
+        case N_UPD: if (op.a == 0) n.update_points(); else if (op.a == 1) n.update_observations(); else if (op.a == 2) n.update_residuals(); else n.update_adjustment(); a.isvoid = true; break;
+        case N_M0TYPE: if (op.a) n.set_m_0_aposteriori(); else n.set_m_0_apriori(); cfg_m0 = op.a; a.isvoid = true; break;
+        case N_CONFPR: n.conf_pr(CP[op.a]); cfg_cp = op.a; a.isvoid = true; break;
+        default: a.exc = "badop";
+      }
+    });
+  }
+};
+
+static const char* KIND[6] = {"AdjEnvelope", "AdjGSO", "AdjSVD", "AdjCholDec", "Adj", "LocalNetwork"};
 
 static std::vector<Op> make_ops(const Problem& p, int kind) {
   std::vector<Op> ops;
-  auto add = [&](std::string n, int k, int a = 0, int b = 0, bool cfg = false) { Op o; o.name = n; o.kind = k; o.a = a; o.b = b; o.config = cfg; ops.push_back(o); };
+  auto add = [&](std::string n, int k, int a = 0, int b = 0, bool cfg = false) {
+    Op o; o.name = n; o.kind = k; o.a = a; o.b = b; o.config = cfg;
+    switch (k) {
+      case K_MINX_ALL: o.cslot = 0; o.cval = -1; break;
+      case K_MINX_S: case K_SETALG: case N_SETALG: o.cslot = 0; o.cval = a; break;
+      case N_M0TYPE: o.cslot = 1; o.cval = a; break;
+      case N_CONFPR: o.cslot = 2; o.cval = a; break;
+      default: break;
+    }
+    ops.push_back(o);
+  };
   int qb = std::min(p.m, 3);
+  if (kind == 5) {
+    int nu = p.n, no = p.m;     // unknowns / observations of the network (filled by the problem table)
+    add("solve", N_SOLVE); add("residuals", N_RES); add("trans_VWV", N_VWV); add("degrees_of_freedom", N_DOF); add("null_space", N_NULL);
+    add("m_0", N_M0); add("m_0_aposteriori_value", N_M0POST); add("unknowns_count", N_NUNK); add("observations_count", N_NOBS);
+    add("qxx(1,1)", N_QXX, 1, 1); add("qxx(1," + std::to_string(nu) + ")", N_QXX, 1, nu); add("qxx(2,1)", N_QXX, 2, 1);
+    add("qbb(1,1)", N_QBB, 1, 1); add("qbb(1," + std::to_string(no) + ")", N_QBB, 1, no);
+    add("stdev_obs(1)", N_STDOBS, 1); add("stdev_obs(" + std::to_string(no) + ")", N_STDOBS, no);
+    add("wcoef_res(1)", N_WCOEF, 1); add("stdev_res(1)", N_STDRES, 1); add("studentized_residual(2)", N_STUD, 2); add("obs_control(1)", N_OBSCTL, 1);
+    add("unknown_stdev(1)", N_UNKSTD, 1); add("std_error_ellipse", N_ELL); add("lindep(1)", N_LINDEP, 1); add("cond", N_COND); add("conf_int_coef", N_CONF);
+    add("huge_abs_terms", N_HUGE); add("connected_network", N_CONN);
+    static const char* AN[4] = {"envelope", "gso", "svd", "cholesky"};
+    for (int a = 0; a < 4; a++) add(std::string("set_algorithm(") + AN[a] + ")", N_SETALG, a, 0, true);
+    static const char* UN[4] = {"update_points", "update_observations", "update_residuals", "update_adjustment"};
+    for (int a = 0; a < 4; a++) add(UN[a], N_UPD, a, 0, true);
+    add("set_m_0_apriori", N_M0TYPE, 0, 0, true); add("set_m_0_aposteriori", N_M0TYPE, 1, 0, true);
+    add("conf_pr(0.95)", N_CONFPR, 0, 0, true); add("conf_pr(0.80)", N_CONFPR, 1, 0, true);
+    return ops;
+  }
   if (kind == 4) {
     add("x", K_ADJ_X); add("r", K_ADJ_R); add("rtr", K_ADJ_RTR); add("defect", K_DEF);
     for (int i = 1; i <= p.n; i++) for (int j = i; j <= p.n; j++) add("q_xx(" + std::to_string(i) + "," + std::to_string(j) + ")", K_QXX, i, j);
@@ -258,6 +371,7 @@ static std::vector<Op> make_ops(const Problem& p, int kind) {
 static char* crumb = nullptr;
 
 static std::unique_ptr<Target> fresh(const Problem& p, int kind, int adj_subset) {
+  if (kind == 5) return std::unique_ptr<Target>(new NetTarget(p));
   if (kind == 4) return std::unique_ptr<Target>(new AdjTarget(p, adj_subset));
   return std::unique_ptr<Target>(new SolverTarget(p, kind));
 }
@@ -275,21 +389,49 @@ struct Explorer {
     if (op >= 0) s += std::to_string(op);
     return s;
   }
-  void config_ops(Target& t, int minx, int alg) {   // bring a fresh target to the given configuration
-    if (kind == 4) { if (alg != 0) { for (auto& o : ops) if (o.kind == K_SETALG && o.a == alg) t.apply(o); } return; }
-    if (minx == -1) { for (auto& o : ops) if (o.kind == K_MINX_ALL) { t.apply(o); break; } }
-    else if (minx >= 0) { for (auto& o : ops) if (o.kind == K_MINX_S && o.a == minx) { t.apply(o); break; } }
+  static std::string cfgstr(const std::vector<int>& c) { std::string s; for (int v : c) s += std::to_string(v) + "/"; return s; }
+  void config_ops(Target& t, const std::vector<int>& want) {   // bring a fresh target to the given configuration
+    std::vector<int> have = t.cfgv();
+    for (size_t slot = 0; slot < want.size(); slot++) {
+      if (have[slot] == want[slot]) continue;
+      for (auto& o : ops) if (o.config && o.cslot == (int)slot && o.cval == want[slot]) { t.apply(o); break; }
+    }
   }
-  const Answer& reference(int minx, int alg, int opi, bool solved_first) {
-    std::string k = std::to_string(minx) + "/" + std::to_string(alg) + "|" + std::to_string(opi);
+  // execute op in a nested fork; returns false if the child died
+  bool probe(Target& t, const Op& op, Answer& a) {
+    int fd[2]; if (pipe(fd) != 0) return true;
+    fflush(stdout);
+    pid_t c = fork();
+    if (c == 0) {
+      close(fd[0]);
+      int devnull = open("/dev/null", O_WRONLY); if (devnull >= 0) dup2(devnull, 2);
+      Answer r = t.apply(op);
+      int n = (int)r.v.size(), e = (int)r.exc.size(), iv = r.isvoid;
+      if (write(fd[1], &iv, sizeof iv) < 0 || write(fd[1], &e, sizeof e) < 0 || write(fd[1], r.exc.data(), e) < 0 || write(fd[1], &n, sizeof n) < 0 || write(fd[1], r.v.data(), n * sizeof(double)) < 0) _exit(3);
+      _exit(0);
+    }
+    close(fd[1]);
+    int iv = 0, e = 0, n = 0; bool ok = true;
+    ok = ok && read(fd[0], &iv, sizeof iv) == (ssize_t)sizeof iv;
+    ok = ok && read(fd[0], &e, sizeof e) == (ssize_t)sizeof e;
+    if (ok && e > 0) { a.exc.resize(e); ok = read(fd[0], &a.exc[0], e) == e; }
+    ok = ok && read(fd[0], &n, sizeof n) == (ssize_t)sizeof n;
+    if (ok && n > 0) { a.v.resize(n); ok = read(fd[0], a.v.data(), n * sizeof(double)) == (ssize_t)(n * sizeof(double)); }
+    close(fd[0]);
+    int st = 0; waitpid(c, &st, 0);
+    a.isvoid = iv;
+    return ok && WIFEXITED(st) && WEXITSTATUS(st) == 0;
+  }
+  const Answer& reference(const std::vector<int>& cfg, int opi, bool solved_first) {
+    std::string k = cfgstr(cfg) + "|" + std::to_string(opi);
     auto& mp = solved_first ? ref : first;
     auto it = mp.find(k);
     if (it != mp.end()) return it->second;
     auto t = fresh(p, kind, adj_subset);
-    config_ops(*t, minx, alg);
-    if (solved_first) { for (auto& o : ops) if (o.kind == K_UNK || o.kind == K_ADJ_X) { t->apply(o); break; } }
+    config_ops(*t, cfg);
+    if (solved_first) { for (auto& o : ops) if (o.kind == K_UNK || o.kind == K_ADJ_X || o.kind == N_SOLVE) { t->apply(o); break; } }
     Answer a;
-    if (!solved_first && t->would_crash(ops[opi])) { a.exc = "CRASH(null least_squares)"; }
+    if (t->risky(ops[opi])) { if (!probe(*t, ops[opi], a)) { a = Answer(); a.exc = "CRASH"; } }
     else a = t->apply(ops[opi]);
     return mp[k] = a;
   }
@@ -315,15 +457,19 @@ struct Explorer {
         snprintf(crumb, 4000, "%s", casestr(h, oi).c_str());
         auto t = fresh(p, kind, adj_subset);
         for (int x : h) t->apply(ops[x]);
-        int minx = t->cfg_minx, alg = t->cfg_alg;
+        std::vector<int> cfg = t->cfgv();
         Answer a;
-        bool crash = t->would_crash(ops[oi]);
-        if (crash) a.exc = "CRASH(null least_squares)"; else a = t->apply(ops[oi]);
+        bool crash = false;
+        if (t->risky(ops[oi]) && reference(cfg, oi, false).exc == "CRASH") {
+          // this accessor kills the process when asked before the adjustment exists (probed once per
+          // configuration in a nested fork on a fresh object); not executed again in unsolved states
+          crash = true; a.exc = "CRASH";
+        } else a = t->apply(ops[oi]);
         transitions++;
         if (!ops[oi].config) {
-          const Answer& r = reference(minx, alg, oi, true);
+          const Answer& r = reference(cfg, oi, true);
           if (!same(a, r)) {
-            const Answer& f = reference(minx, alg, oi, false);
+            const Answer& f = reference(cfg, oi, false);
             std::string opn = ops[oi].name.substr(0, ops[oi].name.find('('));
             std::string cls = p.nullity ? "defect>0" : "defect=0";
             if (same(a, f)) {
@@ -333,7 +479,7 @@ struct Explorer {
               O(std::string("first-query:") + KIND[kind] + ":" + opn);
             } else {
               V(std::string("C04|history|") + KIND[kind] + "|" + opn + "|" + cls, casestr(h, oi),
-                "history [" + histstr(h) + "] then " + ops[oi].name + " = " + a.show() + " ; fresh object = " + r.show() + " (cfg minx/alg " + std::to_string(minx) + "/" + std::to_string(alg) + ")");
+                "history [" + histstr(h) + "] then " + ops[oi].name + " = " + a.show() + " ; fresh object = " + r.show() + " (cfg " + cfgstr(cfg) + ")");
               O(std::string("history:") + KIND[kind] + ":" + opn);
             }
           } else O(std::string("agree:") + KIND[kind]);
@@ -376,6 +522,18 @@ static std::vector<Problem> problems() {
   P.push_back(mk("empty-col", 4, {row(4, {{1, 1}}), row(4, {{1, -1}, {2, 1}}), row(4, {{2, -1}, {4, 1}}), row(4, {{1, -1}, {4, 1}})}, {{3}, {1, 3}}));
   // star with 2 dependent directions (defect 2, 3-nonzero rows)
   P.push_back(mk("tri3", 3, {row(3, {{1, 1}, {2, 1}, {3, 1}}), row(3, {{1, 1}, {2, 1}, {3, 1}})}, {{1, 2}, {2, 3}}));
+  // LocalNetwork problems (input files generated by data/c04/make.py)
+  std::string dir = ctx().opt.count("data") ? ctx().opt["data"] : "/verif/data/c04";
+  for (const char* nm : {"net2d", "levfree", "net2dfree"}) {
+    std::ifstream in(dir + "/" + nm + ".gkf");
+    if (!in) continue;
+    std::stringstream ss; ss << in.rdbuf();
+    Problem p; p.name = nm; p.gkf = ss.str();
+    NetTarget t(p);
+    p.n = t.net->unknowns_count(); p.m = t.net->observations_count();
+    t.net->solve(); p.nullity = t.net->null_space();
+    P.push_back(p);
+  }
   return P;
 }
 
@@ -395,18 +553,19 @@ int main(int argc, char** argv) {
   if (!ctx().replay.empty()) {
     auto f = split(ctx().replay, ';');
     std::string kd = f[0]; int adj_subset = -1; size_t sl = kd.find("/S"); if (sl != std::string::npos) { adj_subset = atoi(kd.c_str() + sl + 2); kd = kd.substr(0, sl); }
-    int kind = 0; for (int k = 0; k < 5; k++) if (kd == KIND[k]) kind = k;
+    int kind = 0; for (int k = 0; k < 6; k++) if (kd == KIND[k]) kind = k;
     Problem p = parse_problem(f[1]);
     Explorer ex(p, kind, adj_subset); ex.pname = p.name;
     std::vector<int> h = f.size() > 2 ? ints(f[2]) : std::vector<int>();
     int op = h.back(); h.pop_back();
     auto t = fresh(p, kind, adj_subset);
     for (int x : h) { Answer a = t->apply(ex.ops[x]); printf("  %-28s -> %s   key=%s\n", ex.ops[x].name.c_str(), a.show().c_str(), t->key().c_str()); }
-    int minx = t->cfg_minx, alg = t->cfg_alg;
-    Answer a = t->would_crash(ex.ops[op]) ? Answer() : t->apply(ex.ops[op]);
+    std::vector<int> cfg = t->cfgv();
+    Answer a;
+    if (t->risky(ex.ops[op])) { if (!ex.probe(*t, ex.ops[op], a)) { a = Answer(); a.exc = "CRASH"; } } else a = t->apply(ex.ops[op]);
     printf("  %-28s -> %s\n", ex.ops[op].name.c_str(), a.show().c_str());
-    const Answer& r = ex.reference(minx, alg, op, true);
-    printf("  fresh object (cfg %d/%d), solved once, same question -> %s\n", minx, alg, r.show().c_str());
+    const Answer& r = ex.reference(cfg, op, true);
+    printf("  fresh object (cfg %s), solved once, same question -> %s\n", Explorer::cfgstr(cfg).c_str(), r.show().c_str());
     bool ok = same(a, r);
     printf(ok ? "AGREE\n" : "V\tC04|replay\t%s\tdiffers\n", ctx().replay.c_str());
     return ok ? 0 : 1;
@@ -415,7 +574,8 @@ int main(int argc, char** argv) {
   int nprob = thorough() ? (int)P.size() : (int)P.size();
   uint64_t unit = 0;
   for (int pi = 0; pi < nprob; pi++) {
-    for (int kind = 0; kind < 5; kind++) {
+    for (int kind = 0; kind < 6; kind++) {
+      if ((kind == 5) != !P[pi].gkf.empty()) continue;
       int nsub = (kind == 4) ? (1 + (int)P[pi].subsets.size()) : 1;   // Adj: regularisation comes with the input data
       for (int s = 0; s < nsub; s++) {
         unit++;
